@@ -950,6 +950,20 @@ func (r *c04Run) failingWrites(idx []int, jobDir string) {
 				msg = res.out.Msg
 			}
 			extra["blocked_in"] = msg
+			// the listed lock leak seen through the chain: the failed write is the INTERMEDIATE flush of the preimage
+			// loop of trie.Database.Commit (a batch holding only "secure-key-" records, i.e. more than IdealBatchSize of
+			// preimages): Commit returns with db.lock read-locked and the next Commit (the next shutdown flush / block) blocks
+			preimageFlush := L[n-1].Batch && len(L[n-1].Ops) > 0
+			for _, o := range L[n-1].Ops {
+				if !(len(o.Key) == 43 && strings.HasPrefix(string(o.Key), "secure-key-")) {
+					preimageFlush = false
+				}
+			}
+			if preimageFlush {
+				c.Violate(sigCommitRLock, "trie.Database.Commit returns with db.lock read-locked when the intermediate preimage batch write fails; the next Commit blocks forever on db.lock.Lock() (seen through the chain: "+msg+")",
+					map[string]interface{}{"scenario": r.sc, "prefix": n - 1, "config": r.cfg, "fail_write": n, "failed_record": "intermediate preimage flush of trie.Database.Commit"})
+				break
+			}
 			c.Violate(fmt.Sprintf("write-failure-deadlock/%s/%s/w%d", r.sc.Name, r.cfg, n), "after one failed database write the import / shutdown never returns: "+msg,
 				map[string]interface{}{"scenario": r.sc, "prefix": n - 1, "config": r.cfg, "fail_write": n, "failed_record": extra["failed_record"]})
 		case strings.HasPrefix(res.exit, "start:") || strings.HasPrefix(res.exit, "wait:"):
